@@ -3,6 +3,7 @@ package main
 // Loop cutting with invariants, write-set regions and frame conditions.
 
 import (
+	"os"
 	"strings"
 	"fmt"
 	"go/ast"
@@ -264,6 +265,9 @@ func (fr *Frame) loopWrites(li *loopInfo) (cells map[ssa.Value]bool, heaps map[s
 				e := vc.callEffects(fr, &in.Call)
 				if e.top {
 					top = true
+					if os.Getenv("GOVC_DEBUG_TOP") != "" {
+						vc.warn("loop %d: call %s has unbounded effect (%s)", li.ordinal, in.Call.Value.String(), e.why)
+					}
 				}
 				for h := range e.heaps {
 					heaps[h] = true
